@@ -37,6 +37,14 @@ def param_for(axis, N, mn, d, other=((3, -0.2, 0.4), (4, 0.15, 0.25))):
 
 def attr_case(task):
     """Closed-form checks on one grid."""
+    try:
+        return _attr_case(task)
+    except Exception as ex:      # noqa: BLE001
+        return {'task': list(task),
+                'bad': [('raised', type(ex).__name__, str(ex)[:150])]}
+
+
+def _attr_case(task):
     from aurel.finitedifference import FiniteDifference
     axis, N, mn, d, order = task
     p = param_for(axis, N, mn, d)
@@ -107,6 +115,14 @@ def roundtrip_points():
 
 
 def trim_case(task):
+    try:
+        return _trim_case(task)
+    except Exception as ex:      # noqa: BLE001
+        return {'task': [task[0], list(task[1])],
+                'bad': [('raised', type(ex).__name__, str(ex)[:150])]}
+
+
+def _trim_case(task):
     """cutoffmask/cutoffmask2 remove exactly mask_len / 2 mask_len per side;
     excision does not touch its argument."""
     from aurel.finitedifference import FiniteDifference
@@ -198,6 +214,32 @@ def consumer_case(task):
     return {'task': list(task), 'bad': bad}
 
 
+def convert_block(run):
+    # conversion round trip on special points
+    from aurel.finitedifference import FiniteDifference
+    with quiet():
+        fd = FiniteDifference(param_for(0, 4, 0., 1.), verbose=False)
+    x, y, z = roundtrip_points()
+    x0, y0, z0 = x.copy(), y.copy(), z.copy()
+    r, th, ph = fd.cartesian_to_spherical(x, y, z)
+    xx, yy, zz = fd.spherical_to_cartesian(r, th, ph)
+    err = np.maximum.reduce([np.abs(xx - x0), np.abs(yy - y0),
+                             np.abs(zz - z0)])
+    nrt = len(x)
+    if not (np.all(np.isfinite(r + th + ph))
+            and np.all(err <= 1e-7 * np.maximum(r, 1e-300))):
+        k = int(np.argmax(err - 1e-7 * r))
+        run.violation("C16:convert:roundtrip",
+                      f"point ({x0[k]},{y0[k]},{z0[k]}) -> err {err[k]}",
+                      {'kind': 'roundtrip', 'point': [x0[k], y0[k], z0[k]]})
+    if not (np.array_equal(x, x0) and np.array_equal(y, y0)
+            and np.array_equal(z, z0)):
+        run.violation("C16:convert:modified-argument", "inputs changed", {})
+    if np.any(th < 0) or np.any(th > np.pi) or np.any(np.abs(ph) > np.pi):
+        run.violation("C16:convert:range", "angles out of range", {})
+    return nrt
+
+
 def main(tier):
     run = runner.Run(PID, tier, "exploration")
     rng = np.random.RandomState(run.seed)
@@ -223,28 +265,8 @@ def main(tier):
                           f"axis={'xyz'[t[0]]} N={t[1]} min={t[2]} "
                           f"d={t[3]}: {bad}",
                           {'kind': 'attr', 'task': list(t)})
-    # conversion round trip on special points
-    from aurel.finitedifference import FiniteDifference
-    with quiet():
-        fd = FiniteDifference(param_for(0, 4, 0., 1.), verbose=False)
-    x, y, z = roundtrip_points()
-    x0, y0, z0 = x.copy(), y.copy(), z.copy()
-    r, th, ph = fd.cartesian_to_spherical(x, y, z)
-    xx, yy, zz = fd.spherical_to_cartesian(r, th, ph)
-    err = np.maximum.reduce([np.abs(xx - x0), np.abs(yy - y0),
-                             np.abs(zz - z0)])
-    nrt = len(x)
-    if not (np.all(np.isfinite(r + th + ph))
-            and np.all(err <= 1e-7 * np.maximum(r, 1e-300))):
-        k = int(np.argmax(err - 1e-7 * r))
-        run.violation("C16:convert:roundtrip",
-                      f"point ({x0[k]},{y0[k]},{z0[k]}) -> err {err[k]}",
-                      {'kind': 'roundtrip', 'point': [x0[k], y0[k], z0[k]]})
-    if not (np.array_equal(x, x0) and np.array_equal(y, y0)
-            and np.array_equal(z, z0)):
-        run.violation("C16:convert:modified-argument", "inputs changed", {})
-    if np.any(th < 0) or np.any(th > np.pi) or np.any(np.abs(ph) > np.pi):
-        run.violation("C16:convert:range", "angles out of range", {})
+    nrt = runner.guard(run, 'C16:convert:raised', convert_block, run,
+                       default=0)
     # trimming helpers
     ttasks = []
     for o in ORDERS + (1, 3, 5, 7, 10, 12):
